@@ -36,7 +36,7 @@ def rnd_v(rng):
 
 
 def res_term(val):
-    if isinstance(val, str): return '(Err EValue)'
+    if isinstance(val, str): return '(Err EZeroDiv)' if 'ZeroDivision' in val else '(Err EValue)'
     return f'(Ok {qlit(val)})'
 
 
@@ -77,9 +77,10 @@ def run(ctx):
         ctx.count(('ratio', u1, d1, u2, d2), nontrivial=(u1, d1) != (u2, d2))
         ctx.dist('time_ratio' + ('/error' if isinstance(r, str) else ''))
         terms.append(f'(({UC[u1]}, {qlit(d1)}), ({UC[u2]}, {qlit(d2)}), {res_term(r)})')
-    ok_def = (f'Definition ok (c : (unit_t * Q) * (unit_t * Q) * res Q) : bool :=\n'
+    ok_def = (f'Definition errc (e : err) : bool := match e with EZeroDiv => true | _ => false end.\n'
+              f'Definition ok (c : (unit_t * Q) * (unit_t * Q) * res Q) : bool :=\n'
               f'  let \'(a, b, r) := c in match time_ratio_gen (fst a) (snd a) (fst b) (snd b), r with\n'
-              f'  | Ok x, Ok y => Qclose {TOL} x y | Err _, Err _ => true | _, _ => false end.')
+              f'  | Ok x, Ok y => Qclose {TOL} x y | Err e1, Err e2 => Bool.eqb (errc e1) (errc e2) | _, _ => false end.')
     bad = ctx.coq_mismatches('ratio', 'Model.Prelude Model.L3_Units Gen.Gen_Time Model.L3_TimePar',
                              '(unit_t * Q) * (unit_t * Q) * res Q', terms, ok_def)
     ctx.sample(dict(kind='time_ratio', case=ratio_cases[40], impl=impl(lambda: ss.time_ratio(*ratio_cases[40]))))
@@ -123,7 +124,8 @@ def run(ctx):
         rr = impl(lambda: float((k * mk(c)).values))
         ctx.count(('arith',) + c + (k, x)); ctx.dist('arithmetic(*,/,neg,+,-,rmul)', 6)
         terms_ar.append(f'({tpterm(c)}, ({qlit(k)}, {qlit(x)}), [{res_term(rm)}; {res_term(rd)}; {res_term(rn)}; {res_term(ra)}; {res_term(rs)}; {res_term(rr)}])')
-    cmpdef = (f'Definition cmp (m r : res Q) : bool := match m, r with Ok x, Ok y => Qclose {TOL} x y | Err _, Err _ => true | _, _ => false end.\n')
+    cmpdef = (f'Definition errc (e : err) : bool := match e with EZeroDiv => true | _ => false end.\n'
+              f'Definition cmp (m r : res Q) : bool := match m, r with Ok x, Ok y => Qclose {TOL} x y | Err e1, Err e2 => Bool.eqb (errc e1) (errc e2) | _, _ => false end.\n')
     imports = 'Model.Prelude Model.L3_Units Gen.Gen_Time Model.L3_TimePar'
     bad = ctx.coq_mismatches('values', imports, 'timepar * res Q', terms,
                              cmpdef + 'Definition ok (c : timepar * res Q) : bool := cmp (tp_values (fst c)) (snd c).')
